@@ -346,6 +346,7 @@ func (r *Runner) finish(opt Options, sel []*ssa.Function, reports []*HarnessRepo
 		for _, k := range order {
 			g := groups[k]
 			var sat []*Obligation
+			var inconclusive []*Obligation
 			res := "unsat"
 			var secs float64
 			solver := ""
@@ -370,11 +371,40 @@ func (r *Runner) finish(opt Options, sel []*ssa.Function, reports []*HarnessRepo
 					if res != "sat" {
 						res = o.Status
 					}
-					fmt.Printf("ENGINE-FAULT harness=%s obligation %q at %s [%s]: solver result %s %s (%.0fs)\n", rep.Name, o.Label, o.Site, choiceSig(o.Choices), o.Status, o.Detail, o.Secs)
-					faults++
+					inconclusive = append(inconclusive, o)
 				}
 			}
 			first := g.obls[0]
+			if len(inconclusive) > 0 {
+				// The solver could not decide this obligation. Before reporting it as inconclusive, run the
+				// harness natively once with default inputs: harnesses may carry a concrete witness family
+				// (executed only natively) under the same assertion label; if that fails, the property is
+				// violated on a concrete input even though the symbolic query was undecided.
+				o := inconclusive[0]
+				saved := o.Model
+				o.Model = map[string]string{}
+				path, out, err := r.replayObl(prop, rep, o)
+				o.Model = saved
+				replays++
+				handled := false
+				if err == nil {
+					if c := confirmOutcome(o, out); c != "" {
+						o.Confirmed, o.Replay = c, path
+						handled = true
+						if k := r.matchKnown(prop, o); k != nil {
+							knownLines = append(knownLines, fmt.Sprintf("KNOWN-FINDING: property=%s %s [harness=%s label=%q site=%s]", prop, k.What, rep.Name, first.Label, first.Site))
+						} else {
+							violations = append(violations, fmt.Sprintf("VIOLATION property=%s replay=%s harness=%s kind=%s label=%q site=%s (solver inconclusive on the symbolic obligation; the harness's native witness inputs violate it: %s)", prop, path, rep.Name, first.Kind, first.Label, first.Site, c))
+						}
+					}
+				}
+				if !handled {
+					for _, o := range inconclusive {
+						fmt.Printf("ENGINE-FAULT harness=%s obligation %q at %s [%s]: solver result %s %s (%.0fs)\n", rep.Name, o.Label, o.Site, choiceSig(o.Choices), o.Status, o.Detail, o.Secs)
+						faults++
+					}
+				}
+			}
 			if first.Kind == "unwind" && len(sat) > 0 {
 				// the path beyond the unwinding bound is feasible: either the loop really does not
 				// terminate (native replay hangs or crashes: violation) or the bound is too small (inconclusive)
